@@ -219,6 +219,16 @@ def container_paths(data: dict[str, Any]) -> list[list[Any]]:
     return out
 
 
+def _resolve(data: dict[str, Any], path: list[Any]) -> Any:
+    cur: Any = data[path[1]]
+    for kind, key in path[2]:
+        if kind == "n" and key in ("first", "last") and isinstance(cur, list):
+            cur = cur[0 if key == "first" else -1]
+        else:
+            cur = cur[key]
+    return cur
+
+
 def _pick(draw: Any, seq: list[Any]) -> Any:
     return seq[draw(st.integers(0, len(seq) - 1))]
 
@@ -276,7 +286,7 @@ def _filter(draw: Any, conts: list[list[Any]], *, first: bool = False) -> dict[s
     else:
         for at in argt:
             opt = at.endswith("?")
-            if opt and draw(st.integers(0, 9)) < 4:
+            if opt and draw(st.integers(0, 9)) < 5:
                 break
             args.append(["pos", _arg(draw, at.rstrip("?"), conts)])
         if name == "default" and draw(st.integers(0, 3)) == 0:
@@ -388,7 +398,7 @@ def _common(draw: Any) -> dict[str, Any]:
     return {
         "layout": draw(st.integers(0, 3)),
         "route": draw(st.sampled_from(["string", "loader"])),
-        "mode": draw(st.sampled_from(["sync", "async"])),
+        "mode": draw(st.sampled_from(["sync", "async", "both", "both"])),  # both = one render each, fresh copies
         "positional": draw(st.booleans()),
         "tuples": draw(st.sampled_from([[], [], [], ["nums"], ["grid"], ["words", "items"]])),
     }
@@ -409,7 +419,8 @@ def probe_case(draw: Any) -> dict[str, Any]:
     data = draw(data_strategy())
     _hostile(draw, data)
     conts = container_paths(data)
-    src = _pick(draw, conts)
+    lists = [p for p in conts if isinstance(_resolve(data, p), list)]
+    src = _pick(draw, lists if lists and draw(st.booleans()) else conts)
     other = _pick(draw, conts)
     site = _pick(draw, SITES)
     n_pre = draw(st.integers(0, 3))
@@ -504,7 +515,7 @@ class C10(Prop):
         self.n_err = 0
 
     def n_random(self, tier: str) -> int:
-        return 24000 if tier == "quick" else 400000
+        return 20000 if tier == "quick" else 400000
 
     def strategy(self, tier: str, disabled: frozenset[str]):
         return st.one_of(prog_case(), probe_case(), probe_case())
@@ -550,6 +561,22 @@ class C10(Prop):
         lay = case["layout"]
         src = to_source(prog["main"], lay)
         templates = {k: to_source(v, lay) for k, v in prog["templates"].items()}
+        modes = ["sync", "async"] if case["mode"] == "both" else [case["mode"]]
+        received = False
+        for mode in modes:
+            received = self._render_once(case, mode, src, templates, res) or received
+        if case["kind"] == "probe":
+            res.labels.append("site:" + case["site"])
+            for fname in case["filters"]:
+                res.labels.append("applied:" + fname)
+        direct_tag = (case["kind"] == "probe" and case.get("direct") and case["site"] in TAG_SITES
+                      and any(case["src"] in case["channels"].get(ch, []) for ch in CHANNELS))
+        res.nontrivial = received or direct_tag
+        res.evaluations = len(modes)
+        return res
+
+    def _render_once(self, case: dict[str, Any], mode: str, src: str, templates: dict[str, str], res: Result) -> bool:
+        """One render with fresh copies of the data on every channel; True if a filter got a caller-owned container."""
         data = case["data"]
         tuples = set(case.get("tuples") or ())
 
@@ -579,7 +606,7 @@ class C10(Prop):
         for fname, func in list(env.filters.items()):
             env.filters[fname] = Spy(fname, func, watch)
 
-        is_async = case["mode"] == "async"
+        is_async = mode == "async"
         outcome = "rendered"
         try:
             if case["route"] == "loader":
@@ -606,14 +633,14 @@ class C10(Prop):
             outcome = "crash"
             res.labels.append("crash:" + exc_bucket(err))
         res.labels.append(outcome)
-        res.labels.append(f"{case['kind']}:{case['mode']}:{case['route']}")
+        res.labels.append(f"{case['kind']}:{mode}:{case['route']}")
 
         # ---- oracle: every supplied mapping is what it was
         for ch, m in supplied.items():
             d = diff(before[ch], m)
             if d is None:
                 continue
-            chan = ch.split(":")[0] if ch.startswith("matter:") else ch
+            chan = "pmatter" if ch.startswith("matter:") else ch
             if ch in watch.blame:
                 who = watch.blame[ch]
             elif case["kind"] == "probe" and case.get("direct") and case["site"] in TAG_SITES \
@@ -622,8 +649,8 @@ class C10(Prop):
             else:
                 who = "path:" + norm_path(d)
             res.fail(
-                "read-only-data", f"mutated:{'pmatter' if ch.startswith('matter:') else chan}:{who}",
-                f"channel {ch!r} differs at {d} after {outcome} ({case['mode']}, {case['route']}); "
+                "read-only-data", f"mutated:{chan}:{who}",
+                f"channel {ch!r} differs at {d} after {outcome} ({mode}, {case['route']}); "
                 f"before={_at(before[ch], d)!r} after={_at(m, d)!r}; src={src!r}; partials={templates!r}",
             )
 
@@ -635,15 +662,7 @@ class C10(Prop):
                 seen.add((fname, ch))
                 res.labels.append(f"recv:{fname}")
                 res.labels.append(f"recv-chan:{ch.split(':')[0]}")
-        if case["kind"] == "probe":
-            res.labels.append("site:" + case["site"])
-            for fname in case["filters"]:
-                res.labels.append("applied:" + fname)
-        direct_tag = (case["kind"] == "probe" and case.get("direct") and case["site"] in TAG_SITES
-                      and any(case["src"] in case["channels"].get(ch, []) for ch in CHANNELS))
-        res.nontrivial = bool(watch.recv) or direct_tag
-        res.evaluations = 1
-        return res
+        return bool(watch.recv)
 
     # ------------------------------------------------------------------ (b)
 
